@@ -91,3 +91,8 @@ CHECKS.update({
     "C21": ("6/C21", "Every sequence (length <=2(3) over all 25 operations; <=4(5) inside the tick family incl. a paged tick stream left open across appends; <=3(4) over state-store x other-family operations) of handler / event / tick / state-store operations executed on a SqliteWorkflowStore with single_connection=True and on one with per-call connections (two real DB files); results and raised exceptions compared after every step.",
             "Differential oracle: the per-call store is the reference the property names. _TICK_PAGE_SIZE set to 2 by the harness. Fix cbedf65 repaired the closed shared connection this check found.", ENUM_TECH),
 })
+
+CHECKS.update({
+    "C24": ("6/C24", "Every sequence (length <=3; <=4 on the in-memory stores in the thorough tier) over 22 operations {upserts of 3 handlers with each status, re-run of a handler id under a new run id, update_handler_status by run id (status / idle_since set / cleared / unknown run), 6 deletes incl. an empty-list filter} on MemoryWorkflowStore(max_completed None/0/1/2) and SqliteWorkflowStore (DB file); retained set checked after every step against the retention rule, delete counts compared, and after each sequence all 432 filter combinations (reduced set on SQLite beyond length 2) compared with a dict reference.",
+            "Both readings of 'most recently completed' are admitted. A delete without any filter is outside the statement and not exercised (the two stores differ there: memory deletes everything, SQLite nothing). Fix recorded for the duplicate terminal-queue entries this check found.", ENUM_TECH),
+})
